@@ -143,9 +143,9 @@ STOP = ("({k} >= " + CFG + ".max_cycles"
         " or (" + ES + " is not None and {k} - 1 >= " + ES + ".patience and"
         " all({r}[j] - {r}[j - 1] < 0 and abs({r}[j] - {r}[j - 1]) < " + ES + ".min_delta"
         " for j in range({k} - " + ES + ".patience, {k}))))")
+# EarlyStopping.validate_patience: a patience that is given is >= 1 (None is accepted and means the default)
 VALID_CFG = [CFG + " is not None",
-             "implies(" + ES + " is not None, " + ES + ".patience is not None and " + ES + ".patience >= 1 and "
-             + ES + ".min_delta is not None)"]
+             "implies(" + ES + " is not None, implies(" + ES + ".patience is not None, " + ES + ".patience >= 1))"]
 # book-keeping invariant after k completed checks: one rate and one difference per cycle; rates are absolute values;
 # the first difference is taken against 0
 BOOK = ["len(self._errors) == {k}", "len(self._error_diffs) == {k}",
